@@ -79,6 +79,20 @@ pub struct Block {
     _transactions: Vec<Transaction>,
 }
 
+#[cfg(feature = "verif-hooks")]
+impl Block {
+    /// Verification hook: read-only view `(slot, hash, parent, transactions)`.
+    #[must_use]
+    pub fn verif_view(&self) -> (Slot, &BlockHash, BlockId, &[Transaction]) {
+        (
+            self._slot,
+            &self.hash,
+            (self.parent, self.parent_hash.clone()),
+            &self._transactions,
+        )
+    }
+}
+
 /// Dummy transaction containing payload bytes.
 ///
 /// A transaction cannot hold more than [`MAX_TRANSACTION_SIZE`] payload bytes.
